@@ -37,6 +37,9 @@ fn check_noise(ctx: &mut Ctx, noise: &[Noise]) {
     for (k, n) in noise.iter().enumerate() {
         for i in 0..n.len {
             if unsafe { n.ptr.add(i).read() } != noise_byte(n.seed, i) {
+                if ctx.on.c01 {
+                    ctx.viol("C01/neighbour-overwritten", format!("byte +{i} of an unrelated live allocation (#{k}, {} bytes) changed", n.len));
+                }
                 if ctx.on.c16 || ctx.on.c08 || ctx.on.c06 {
                     let class = if ctx.on.c16 { "C16/neighbour-overwritten" } else if ctx.on.c08 { "C08/neighbour-overwritten" } else { "C06/neighbour-overwritten" };
                     ctx.viol(class, format!("byte +{i} of an unrelated allocation (#{k}, {} bytes) changed", n.len));
@@ -88,6 +91,24 @@ fn verify_all<E: Elem, V: VecApi<E>>(ctx: &mut Ctx, vs: &[V], ms: &[Vec<u32>], n
             all_ids.extend(ids_of(v.slice()));
         } else if V::KIND != VKind::Boxed && v.cap() != usize::MAX && ctx.on.c08 {
             ctx.viol("C08/zst-capacity", format!("{what}: a {} of zero-sized elements reports capacity {} instead of usize::MAX", KIND_NAMES[V::KIND as usize], v.cap()));
+        }
+    }
+    if !E::ZST && ctx.on.c01 {
+        // the buffers (including spare capacity) of all live collections are pairwise disjoint
+        let mut bufs: Vec<(usize, usize)> = vs.iter().filter(|v| v.cap() > 0).map(|v| (v.data_ptr() as usize, v.data_ptr() as usize + v.cap() * std::mem::size_of::<E>())).collect();
+        bufs.sort_unstable();
+        for w in bufs.windows(2) {
+            if w[0].1 > w[1].0 {
+                ctx.viol("C01/collection-buffers-overlap", format!("{what}: the buffers of two live collections overlap ({} bytes)", w[0].1 - w[1].0));
+                break;
+            }
+        }
+        for nz in noise {
+            let (a, b) = (nz.ptr as usize, nz.ptr as usize + nz.len);
+            if bufs.iter().any(|&(s0, e0)| s0 < b && a < e0) {
+                ctx.viol("C01/collection-buffers-overlap", format!("{what}: the buffer of a collection overlaps an unrelated live allocation"));
+                break;
+            }
         }
     }
     if !E::ZST && (ctx.on.c16 || ctx.on.c06) {
@@ -1137,8 +1158,9 @@ pub fn drive_box<'b, E: Elem, B: BumpAllocatorTypedScope<'b> + BumpAllocatorCore
                                             }
                                             _ => {}
                                         }
-                                    } else if op.a[3] % 3 == 1 && !E::ZST && !lm.is_empty() && !rm.is_empty() {
-                                        // wrong order: not adjacent -> must be rejected by an unwinding panic
+                                    } else if op.a[3] % 3 == 1 && !E::ZST && !(lm.is_empty() && rm.is_empty()) {
+                                        // wrong order: not adjacent (also when one of the two parts is empty) -> must be rejected by
+                                        // an unwinding panic
                                         let out = ctx.call(&op, false, || Ok(r.merge(l)));
                                         match out {
                                             Outcome::Ok(w) => {
@@ -1990,7 +2012,20 @@ where
         3 | 4 if !S::GUARANTEED_ALLOCATED => {
             // through the trait-object allocator
             ctx.stats.probe("carrier.dyn_mut");
-            let mut d: &mut dyn bump_scope::traits::MutBumpAllocatorCoreScope<'_> = bump.as_mut_scope();
+            // ... of the scope itself or of one of the opt-out wrappers around it
+            let mut ws;
+            let mut wd;
+            let mut d: &mut dyn bump_scope::traits::MutBumpAllocatorCoreScope<'_> = match ctx.trace.param_or("heap_seed", 0) >> 3 & 3 {
+                0 | 1 => bump.as_mut_scope(),
+                2 => {
+                    ws = bump_scope::WithoutShrink(bump.as_mut_scope());
+                    &mut ws
+                }
+                _ => {
+                    wd = bump_scope::WithoutDealloc(bump.as_mut_scope());
+                    &mut wd
+                }
+            };
             if kind == 3 {
                 drive_mut::<E, _>(ctx, &mut d, S::MIN_ALIGN)
             } else {
